@@ -17,6 +17,7 @@ static cl::opt<bool> AllowCycles("allow-cycles", cl::desc("res mode: tolerate st
 static cl::opt<std::string> Opaque("opaque", cl::desc("comma separated mangled-name prefixes of DEFINED functions treated as environment stubs"), cl::init("_ZN3fmt,_ZNK3fmt"));
 static cl::opt<bool> NoExprInline("no-expr-inline", cl::desc("keep one C variable per IR value"), cl::init(false));
 static cl::opt<bool> RefcountMovers("refcount-movers", cl::desc("opt-in reduction: +-1 reference-count RMWs are atomic but not context-switch points"), cl::init(false));
+static cl::opt<std::string> PtrBuf("ptrbuf", cl::desc("comma separated substrings of struct names whose SBO byte buffers are emitted as pointer arrays"), cl::init(""));
 static cl::opt<std::string> Cut("cut", cl::desc("comma separated mangled names of DEFINED functions that the scenario must never reach: not translated, a call is an assertion failure"), cl::init(""));
 static cl::opt<bool> Flat("flat", cl::desc("res mode: guarded-segment layout"), cl::init(false));
 static cl::opt<bool> Chain("chain", cl::desc("res mode: skip-chain layout"), cl::init(false));
@@ -229,6 +230,11 @@ int main(int argc, char** argv)
         StringRef(Opaque).split(op, ',');
         for (StringRef o : op)
             if (!o.empty() && Mode != "instr") C.opaquePrefixes.push_back(o.str());    // the native build runs the real formatting code
+        SmallVector<StringRef, 8> pb;
+        StringRef(PtrBuf).split(pb, ',');
+        for (StringRef o : pb)
+            if (!o.empty() && Mode != "instr") C.ptrBufOwners.push_back(o.str());
+        C.computePtrBufs();
         SmallVector<StringRef, 8> ct;
         StringRef(Cut).split(ct, ',');
         for (StringRef o : ct)
